@@ -50,29 +50,29 @@ func runC45(c *Ctx) {
 func c45Table() map[string]string {
 	ser := "serialisation / key-generation path, reached from the parse entry points only through interface over-approximation (io.Writer, hash.Hash, crypto.Signer); not executed while parsing"
 	return map[string]string{
-		"openpgp.CheckDetachedSignature: unreachable":                                   "the loop above exits only with len(keys) > 0 (break) or returns; the second site repeats the first type switch on the same packet value (C45.switch-coverage)",
-		"openpgp/packet.(*Signature).parse: unreachable":                                "the MPI-reading switch repeats the algorithm switch above, which returned UnsupportedError for every other value (C45.switch-coverage)",
-		"openpgp/packet.(*SignatureV3).parse: unreachable":                              "as for Signature.parse (C45.switch-coverage)",
-		"openpgp/packet.(*PublicKey).VerifySignature: shouldn't happen":                 "not present in this tree",
-		"openpgp/packet.(*PublicKeyV3).VerifySignatureV3: shouldn't happen":             "CanSign() admitted only RSA keys above; the default arm is unreachable for keys produced by PublicKeyV3.parse",
-		"openpgp/packet.(*PublicKeyV3).serializeWithoutHeaders: unknown public key algorithm": ser,
-		"openpgp/packet.(*PublicKeyV3).SerializeSignaturePrefix: unknown public key algorithm": ser,
-		"openpgp/packet.(*PublicKey).SerializeSignaturePrefix: unknown public key algorithm":   ser,
-		"openpgp/packet.(*PublicKey).serializeWithoutHeaders: unknown public key algorithm":    ser,
-		"openpgp/packet.(*PublicKey).VerifySignatureV3: shouldn't happen":                "default arm after CanSign(): parse admits only the algorithms handled (C45.switch-coverage)",
-		"openpgp/packet.(*Signature).Serialize: impossible":                              ser,
-		"openpgp/packet.(*Signature).serializeBody: impossible":                          ser,
-		"openpgp/packet.(*SignatureV3).Serialize: impossible":                            ser,
-		"openpgp/packet.(*PrivateKey).Decrypt: impossible":                               "not present in this tree",
-		"openpgp/packet.(*PrivateKey).parsePrivateKey: impossible":                       "switch over pk.PublicKey.PubKeyAlgo repeats PublicKey.parse's switch, which rejected other values (C45.switch-coverage)",
+		"openpgp.CheckDetachedSignature: unreachable":                                                    "the loop above exits only with len(keys) > 0 (break) or returns; the second site repeats the first type switch on the same packet value (C45.switch-coverage)",
+		"openpgp/packet.(*Signature).parse: unreachable":                                                 "the MPI-reading switch repeats the algorithm switch above, which returned UnsupportedError for every other value (C45.switch-coverage)",
+		"openpgp/packet.(*SignatureV3).parse: unreachable":                                               "as for Signature.parse (C45.switch-coverage)",
+		"openpgp/packet.(*PublicKey).VerifySignature: shouldn't happen":                                  "not present in this tree",
+		"openpgp/packet.(*PublicKeyV3).VerifySignatureV3: shouldn't happen":                              "CanSign() admitted only RSA keys above; the default arm is unreachable for keys produced by PublicKeyV3.parse",
+		"openpgp/packet.(*PublicKeyV3).serializeWithoutHeaders: unknown public key algorithm":            ser,
+		"openpgp/packet.(*PublicKeyV3).SerializeSignaturePrefix: unknown public key algorithm":           ser,
+		"openpgp/packet.(*PublicKey).SerializeSignaturePrefix: unknown public key algorithm":             ser,
+		"openpgp/packet.(*PublicKey).serializeWithoutHeaders: unknown public key algorithm":              ser,
+		"openpgp/packet.(*PublicKey).VerifySignatureV3: shouldn't happen":                                "default arm after CanSign(): parse admits only the algorithms handled (C45.switch-coverage)",
+		"openpgp/packet.(*Signature).Serialize: impossible":                                              ser,
+		"openpgp/packet.(*Signature).serializeBody: impossible":                                          ser,
+		"openpgp/packet.(*SignatureV3).Serialize: impossible":                                            ser,
+		"openpgp/packet.(*PrivateKey).Decrypt: impossible":                                               "not present in this tree",
+		"openpgp/packet.(*PrivateKey).parsePrivateKey: impossible":                                       "switch over pk.PublicKey.PubKeyAlgo repeats PublicKey.parse's switch, which rejected other values (C45.switch-coverage)",
 		"openpgp/packet.NewSignerPrivateKey: openpgp: unknown crypto.Signer type in NewSignerPrivateKey": ser,
-		"openpgp/packet.newECDSAPublicKey: unknown elliptic curve":                          ser,
-		"openpgp/packet.NewECDSAPublicKey: unknown elliptic curve":                          ser,
-		"openpgp/packet.(*EncryptedKey).Serialize: internal error":                          ser,
-		"openpgp/packet.SerializeEncryptedKey: internal error":                              ser,
-		"openpgp.hashToHashId: tried to convert unknown hash":                               ser,
-		"openpgp/s2k.encodeCount: count arg i outside the required range":                   ser,
-		"openpgp/s2k.Serialize: count arg i outside the required range":                     ser,
+		"openpgp/packet.newECDSAPublicKey: unknown elliptic curve":                                       ser,
+		"openpgp/packet.NewECDSAPublicKey: unknown elliptic curve":                                       ser,
+		"openpgp/packet.(*EncryptedKey).Serialize: internal error":                                       ser,
+		"openpgp/packet.SerializeEncryptedKey: internal error":                                           ser,
+		"openpgp.hashToHashId: tried to convert unknown hash":                                            ser,
+		"openpgp/s2k.encodeCount: count arg i outside the required range":                                ser,
+		"openpgp/s2k.Serialize: count arg i outside the required range":                                  ser,
 	}
 }
 
